@@ -28,6 +28,49 @@ Proof.
   - unfold max_int64. lia.
 Qed.
 
+(* ---- the call sites: HTML "rules for parsing non-negative integers" + "clamped to the range"
+   (https://html.spec.whatwg.org/multipage/tables.html#attr-tdth-colspan): stated on the integer the
+   attribute denotes, independently of the order of the two clamps in the code *)
+Definition clamp (lo hi x : Z) : Z := Z.max lo (Z.min hi x).
+
+Lemma span_site_spec attr lo hi :
+  lo <= hi ->
+  (let* v := integer_attribute attr lo in Ok (min_int v hi)) =
+  Ok (match atoi (trim_space attr) with Some x => clamp lo hi x | None => Z.min 1 hi end).
+Proof.
+  intros Hle. rewrite integer_attribute_spec. cbn [bind]. f_equal. unfold min_int, clamp.
+  destruct (atoi (trim_space attr)) as [x|].
+  - destruct (Z.max x lo <? hi) eqn:E; lia.
+  - destruct (1 <? hi) eqn:E; lia.
+Qed.
+
+Theorem cell_colspan_spec attr :
+  cell_colspan attr = Ok (match atoi (trim_space attr) with Some x => clamp 1 1000 x | None => 1 end).
+Proof. unfold cell_colspan. rewrite span_site_spec by lia. destruct (atoi _); reflexivity. Qed.
+
+Theorem cell_rowspan_spec attr :
+  cell_rowspan attr = Ok (match atoi (trim_space attr) with Some x => clamp 0 65534 x | None => 1 end).
+Proof. unfold cell_rowspan. rewrite span_site_spec by lia. destruct (atoi _); reflexivity. Qed.
+
+Theorem column_span_spec attr :
+  column_span attr = Ok (match atoi (trim_space attr) with Some x => clamp 1 1000 x | None => 1 end) /\
+  column_group_span attr = column_span attr.
+Proof. split; [|reflexivity]. unfold column_span. rewrite span_site_spec by lia. destruct (atoi _); reflexivity. Qed.
+
+(* what the table code relies on: a cell covers at least one column (a cell spanning 0 columns leaves
+   the grid narrower than its rows: index out of range in tableAndColumnsPreferredWidths), a column
+   element stands for at least one column, spans are bounded (make([]Box, span)) *)
+Theorem table_spans_range attr :
+  (exists c, cell_colspan attr = Ok c /\ 1 <= c <= 1000) /\
+  (exists r, cell_rowspan attr = Ok r /\ 0 <= r <= 65534) /\
+  (exists s, column_span attr = Ok s /\ 1 <= s <= 1000) /\
+  (exists s, column_group_span attr = Ok s /\ 1 <= s <= 1000).
+Proof.
+  unfold column_group_span. fold (column_span attr).
+  rewrite cell_colspan_spec, cell_rowspan_spec, (proj1 (column_span_spec attr)).
+  unfold clamp. repeat split; eexists; (split; [reflexivity|]); destruct (atoi _); lia.
+Qed.
+
 Theorem font_size_attr_total attr : exists r, font_size_attr attr = Ok r.
 Proof.
   unfold font_size_attr.
